@@ -88,6 +88,7 @@ type Exec struct {
 	varargs     map[string]map[int]Val    // varargs arrays (by reference symbol) -> values stored per index
 	boxed       map[string]Val  // slices converted to interface values (sort.Sort arguments), by payload symbol
 	matched     map[int]bool // call-site clauses (by index) whose pattern selected at least one site
+	visited     map[*ssa.BasicBlock]bool // blocks of the function under verification that some path entered
 	siteAlias   string // interface-method alias of the call site being processed
 	constrained map[string]bool // fresh call results that a branch has already tested on this run
 	lenView  *HeapView // heap view for len() of maps inside contract expressions (nil = current)
@@ -477,6 +478,12 @@ func (x *Exec) run(st *State) {
 // enter moves to block `to`; returns false when the path ends (back edge).
 func (x *Exec) enter(st *State, fr *Frame, to *ssa.BasicBlock) bool {
 	from := fr.block
+	if len(st.frames) > 0 && fr == st.frames[0] {
+		if x.visited == nil {
+			x.visited = map[*ssa.BasicBlock]bool{}
+		}
+		x.visited[to] = true
+	}
 	li := x.loopsOf(fr.fn)
 	if body, isHead := li.body[to]; isHead {
 		ord := li.ord[to]
